@@ -1,7 +1,7 @@
 (* C20, translator tie (MockDisplay::draw_pixel, affected_area): regenerated from the source on every run by translate/r2c
    (coq/Gen/SrcMock2.v), with DISPLAY_AREA, OriginDimensions::size and the blanket Dimensions::bounding_box instance.
-   draw_pixel: the `panic!` paths of the source end with the display unchanged (the generated definitions describe the
-   non-panicking runs); whenever the model's draw_pixel does not panic the generated one yields a representing display.
+   draw_pixel is option-valued (None = the `panic!`s of the source or a panic of get_pixel / set_pixel_unchecked): on
+   representing displays it panics exactly when the model's draw_pixel does, and otherwise yields a representing display.
    affected_area: `self.bounding_box().points().zip(self.pixels.iter()).filter_map(..).fold(..)`: the rectangle points iterator
    is driven to the list it yields (a collect driver over fuel; its `next` gets the constant fuel 3), zip / filter_map / fold
    are List.combine / flat_map / fold_left; on representing displays and with fuel above 4096 it equals the model's
@@ -9,10 +9,18 @@
 From EG Require Import Base.Prelude Base.Casts Model.Geometry Gen.MockConsts Model.Mockdisplay Gen.SrcGeometry Gen.SrcCircle Gen.SrcRectPoints Gen.SrcMock Gen.SrcMock2.
 From EG Require Import Proofs.SrcMock Proofs.SrcMock2.
 
-Theorem C20_src_draw_pixel_is_model : forall s d p c d', drepr s d ->
+Theorem C20_src_draw_pixel_is_model : forall s d p c, drepr s d ->
   i32_min <= px p <= i32_max -> i32_min <= py p <= i32_max ->
-  draw_pixel d p c = Ok d' -> drepr (src_MockDisplay_draw_pixel s p c) d'.
-Proof. exact src_draw_pixel_ok. Qed.
+  res_rel drepr (src_MockDisplay_draw_pixel s p c) (draw_pixel d p c).
+Proof. exact src_draw_pixel_rel. Qed.
+Theorem C20_src_draw_pixel_panics_iff_model : forall s d p c, drepr s d ->
+  i32_min <= px p <= i32_max -> i32_min <= py p <= i32_max ->
+  ((exists k, draw_pixel d p c = Panic k) <-> src_MockDisplay_draw_pixel s p c = None).
+Proof. intros s d p c H Hx Hy. exact (res_rel_panic drepr _ _ (src_draw_pixel_rel s d p c H Hx Hy)). Qed.
+Theorem C20_src_draw_pixel_ok_is_model : forall s d p c d', drepr s d ->
+  i32_min <= px p <= i32_max -> i32_min <= py p <= i32_max ->
+  draw_pixel d p c = Ok d' -> exists s', src_MockDisplay_draw_pixel s p c = Some s' /\ drepr s' d'.
+Proof. intros s d p c d' H Hx Hy. exact (res_rel_ok drepr _ _ d' (src_draw_pixel_rel s d p c H Hx Hy)). Qed.
 
 Theorem C20_src_affected_area_is_model : forall F s d, drepr s d -> (4096 < F)%nat ->
   src_MockDisplay_affected_area F s = Some (affected_area d).
@@ -22,7 +30,14 @@ Theorem C20_src_display_area_is_model : src_DISPLAY_AREA = DISPLAY_AREA.
 Proof. exact src_display_area_eq. Qed.
 
 Example C20_src_area_nonvacuous :
-  let s := src_MockDisplay_draw_pixel (src_MockDisplay_draw_pixel (Build_MockDisplay (repeat None 4096) false false) (P 3 2) 7) (P 10 5) 1 in
-  src_MockDisplay_affected_area 4100 s = Some (R (P 3 2) (Geometry.S 8 4)) /\
-  src_MockDisplay_get_pixel (src_MockDisplay_draw_pixel s (P 3 2) 9) (P 3 2) = Some 7.
-Proof. split; vm_compute; reflexivity. Qed.
+  let s0 := Build_MockDisplay (repeat None 4096) false false in
+  exists s1 s2, src_MockDisplay_draw_pixel s0 (P 3 2) 7 = Some s1 /\ src_MockDisplay_draw_pixel s1 (P 10 5) 1 = Some s2 /\
+  src_MockDisplay_affected_area 4100 s2 = Some (R (P 3 2) (Geometry.S 8 4)) /\
+  src_MockDisplay_draw_pixel s2 (P 3 2) 9 = None /\                       (* overdraw: panic *)
+  src_MockDisplay_draw_pixel s2 (P 64 2) 9 = None /\                      (* out of bounds: panic *)
+  src_MockDisplay_draw_pixel (src_MockDisplay_set_allow_out_of_bounds_drawing s2 true) (P 64 2) 9 = Some (src_MockDisplay_set_allow_out_of_bounds_drawing s2 true) /\
+  (exists s3, src_MockDisplay_draw_pixel (src_MockDisplay_set_allow_overdraw s2 true) (P 3 2) 9 = Some s3 /\ src_MockDisplay_get_pixel s3 (P 3 2) = Some (Some 9)).
+Proof.
+  do 2 eexists. split; [vm_compute; reflexivity|]. split; [vm_compute; reflexivity|].
+  repeat split; try (vm_compute; reflexivity). eexists. split; vm_compute; reflexivity.
+Qed.
